@@ -53,7 +53,11 @@ type Case struct {
 	Pre     string // law: statements before the expression (idTok for the case number)
 	Expr    string // law: expression whose value is compared with ExpRes
 	NoJS    bool   // not expressible as plain JavaScript (document overrides JavaScript here)
+	Steps   []Step // sequence case (seq.go): several calls on the same receiver
+	Origin  string // sequence case: how the receiver is produced
 }
+
+func jsonUnmarshalStrings(text string, out *[]string) error { return json.Unmarshal([]byte(text), out) }
 
 // ---- literals ------------------------------------------------------------------------
 
@@ -195,6 +199,9 @@ func (c *Case) phpCall() string {
 
 // Desc is the human-readable form used in reports and samples.
 func (c *Case) Desc() string {
+	if len(c.Steps) > 0 {
+		return c.seqDesc()
+	}
 	d := "$r = " + phpLit(c.Recv) + "; "
 	if c.Pre != "" {
 		d += strings.ReplaceAll(c.Pre, idTok, "") + " "
@@ -204,6 +211,9 @@ func (c *Case) Desc() string {
 
 // PHP renders the case as a block that prints one line "@<id>\t<result>\t<receiver>".
 func (c *Case) PHP(id int) string {
+	if len(c.Steps) > 0 {
+		return c.seqPHP(id)
+	}
 	n := strconv.Itoa(id)
 	var b strings.Builder
 	b.WriteString("try {\n")
